@@ -475,7 +475,7 @@ func errorOrigins(pg *PG, idx int) []*origin {
 		if i < 0 || i >= len(s.Ret) || retNilErr(s, i) {
 			continue
 		}
-		k := s.Ret[i].T.Key() + fmt.Sprintf("@n%06d", s.Node.ID)
+		k := s.Ret[i].T.Key() + fmt.Sprintf("@n%06d", s.Node.ID) + "@" + decidingContext(s)
 		o := m[k]
 		if o == nil {
 			o = &origin{Key: k, Term: s.Ret[i].T}
@@ -580,4 +580,35 @@ func (c *Check) justify(pg *PG, rule string, origins []*origin, viols []Viol, sh
 		c.add(rule, name, fmt.Sprintf("rejection %s is not justified by any stated violation (extra requirement, moved boundary or different operand)", name), false, where, det...)
 	}
 	return
+}
+
+// decidingContext: the inline-instance path of the last test passed before the
+// return state (walking back over forwarding nodes). Two activations of one
+// helper (say the key-usage check called for the leaf and for a CA) produce the
+// same error term and, after a tail call, leave through the same return node;
+// they are still different rejection origins.
+func decidingContext(s *PState) string {
+	seen := map[*PState]bool{s: true}
+	frontier := []*PState{s}
+	ctx := map[string]bool{}
+	for depth := 0; depth < 64 && len(frontier) > 0; depth++ {
+		var next []*PState
+		for _, t := range frontier {
+			for _, e := range t.In {
+				found := false
+				for _, l := range e.Labels {
+					if l.Kind == "atom" && !l.Implied && l.Node != nil && l.Node.Inst != nil {
+						ctx[l.Node.Inst.Path()] = true
+						found = true
+					}
+				}
+				if !found && !seen[e.From] {
+					seen[e.From] = true
+					next = append(next, e.From)
+				}
+			}
+		}
+		frontier = next
+	}
+	return strings.Join(sortedKeys(ctx), "|")
 }
